@@ -114,15 +114,17 @@ static void extraction(int N, int k, VhRng& rng, bool dense) {
     delete_LweKey(lk); delete_TLweKey(tk); delete_TLweSample(x); delete_TLweParams(par);
 }
 // ---- key switching on a noiseless key made by the real generator ----
-static void keyswitch(int t, int bb, int nin, int nout, VhRng& rng, int nsamples, bool rows) {
-    LweParams* pin = new_LweParams(nin, 0., 1.); LweParams* pout = new_LweParams(nout, 0., 1.);   // alpha_min = 0: noiseless rows
+// alpha > 0: a noisy key; every row then also carries the noise of all rows of the key (phase of the row minus the message it encodes), so that the
+// exact relation can be stated with "the noise of the rows actually used"
+static void keyswitch(int t, int bb, int nin, int nout, VhRng& rng, int nsamples, bool rows, double alpha = 0.) {
+    LweParams* pin = new_LweParams(nin, 0., 1.); LweParams* pout = new_LweParams(nout, alpha, 1.);   // alpha_min = 0: noiseless rows
     LweKey* kin = new_LweKey(pin); LweKey* kout = new_LweKey(pout);
     for (int i = 0; i < nin; i++) kin->key[i] = (i == 0 || i == nin - 1) ? 1 : (int)rng.below(2);
     for (int i = 0; i < nout; i++) kout->key[i] = rng.below(2);
     LweKeySwitchKey* ks = new_LweKeySwitchKey(nin, t, bb, pout);
     lweCreateKeySwitchKey(ks, kin, kout);
     int base = 1 << bb;
-    if (rows) for (int i = 0; i < nin; i++) for (int j = 0; j < t; j++) for (int h = 0; h < base; h++) {
+    if (rows && alpha == 0.) for (int i = 0; i < nin; i++) for (int j = 0; j < t; j++) for (int h = 0; h < base; h++) {
         if (base > 16 && h > 2 && h < base - 2 && rng.below(base / 8)) continue;
         const LweSample* r = &ks->ks[i][j][h]; int az = 1; for (int q = 0; q < nout; q++) if (r->a[q]) az = 0;
         VH_B; vh_s("k", "ksrow"); VH_C; vh_i("t", t); VH_C; vh_i("bb", bb); VH_C; vh_i("i", i); VH_C; vh_i("j", j + 1); VH_C; vh_i("h", h); VH_C; vh_i("s", kin->key[i]); VH_C; vh_w("ph", (uint32_t)lwePhase(r, kout)); VH_C; vh_i("az", az); VH_E;
@@ -150,7 +152,13 @@ static void keyswitch(int t, int bb, int nin, int nout, VhRng& rng, int nsamples
         lweKeySwitch(R.s, ks, in);
         std::vector<uint32_t> out = R.get();
         VH_B; vh_s("k", "ks"); VH_C; vh_i("t", t); VH_C; vh_i("bb", bb); VH_C; vh_i("nin", nin); VH_C; vh_i("nout", nout); VH_C; il("kin", kin->key, nin); VH_C; il("kout", kout->key, nout <= 16 ? nout : 0); VH_C;
-        wl("a", a.data(), nin); VH_C; vh_w("b", (uint32_t)in->b); VH_C; vh_w("po", (uint32_t)lwePhase(R.s, kout)); VH_C; wl("out", out.data(), nout <= 16 ? nout + 1 : 0); VH_C; vh_i("can", R.damaged()); VH_E;
+        wl("a", a.data(), nin); VH_C; vh_w("b", (uint32_t)in->b); VH_C; vh_w("po", (uint32_t)lwePhase(R.s, kout)); VH_C; wl("out", out.data(), nout <= 16 ? nout + 1 : 0); VH_C; vh_i("can", R.damaged());
+        if (alpha > 0.) { VH_C; fputs("\"en\":[", vh_out);
+            for (int i = 0; i < nin; i++) { fprintf(vh_out, "%s[", i ? "," : ""); for (int j = 0; j < t; j++) { fprintf(vh_out, "%s[", j ? "," : "");
+                for (int h = 1; h < base; h++) { uint32_t e = (uint32_t)lwePhase(&ks->ks[i][j][h], kout) - ((uint32_t)(kin->key[i] * h) << (32 - (j + 1) * bb)); fprintf(vh_out, "%s[%u,%u]", h > 1 ? "," : "", e >> 16, e & 0xffff); }
+                fputc(']', vh_out); } fputc(']', vh_out); }
+            fputc(']', vh_out); }
+        VH_E;
     }
     delete_LweSample(in); delete_LweKeySwitchKey(ks); delete_LweKey(kin); delete_LweKey(kout); delete_LweParams(pin); delete_LweParams(pout);
 }
@@ -176,7 +184,8 @@ int main(int argc, char** argv) {
         int t = vh_arg(argc, argv, "--t", 8), bb = vh_arg(argc, argv, "--bb", 2);
         std::vector<long> nin = vh_list(vh_sarg(argc, argv, "--nin", "1,2,3")), nout = vh_list(vh_sarg(argc, argv, "--nout", "1,3,8,9"));
         long ns = vh_arg(argc, argv, "--samples", 64);
-        for (long a : nin) for (long b : nout) keyswitch(t, bb, (int)a, (int)b, rng, (int)ns, a <= 3 && b <= 9);
+        double alpha = ldexp(1., -(int)vh_arg(argc, argv, "--noiselog", 0)); if (vh_arg(argc, argv, "--noiselog", 0) == 0) alpha = 0.;
+        for (long a : nin) for (long b : nout) keyswitch(t, bb, (int)a, (int)b, rng, (int)ns, a <= 3 && b <= 9, alpha);
     } else if (!strcmp(mode, "ksseq")) {      // histories: many layouts and dimensions back to back in ONE process, forward then reversed
         std::vector<long> ts = vh_list(vh_sarg(argc, argv, "--ts", "8,15")), bbs = vh_list(vh_sarg(argc, argv, "--bbs", "2,1"));
         long ns = vh_arg(argc, argv, "--samples", 24);
